@@ -106,10 +106,23 @@ def outEq (b : Backend) : Out → Out → Prop
   | .count n, .count n' => n = n'
   | _, _ => False
 
+instance outEq.dec (b : Backend) (x y : Out) : Decidable (outEq b x y) := by
+  unfold outEq; split <;> infer_instance
+
 def outsEq (b : Backend) : List Out → List Out → Prop
   | [], [] => True
   | x :: xs, y :: ys => outEq b x y ∧ outsEq b xs ys
   | _, _ => False
+
+instance outsEq.dec (b : Backend) : (xs ys : List Out) → Decidable (outsEq b xs ys)
+  | [], [] => isTrue trivial
+  | [], _ :: _ => isFalse (fun h => h)
+  | _ :: _, [] => isFalse (fun h => h)
+  | x :: xs, y :: ys =>
+    match outEq.dec b x y, outsEq.dec b xs ys with
+    | isTrue h1, isTrue h2 => isTrue ⟨h1, h2⟩
+    | isFalse h1, _ => isFalse (fun h => h1 h.1)
+    | _, isFalse h2 => isFalse (fun h => h2 h.2)
 
 /-- Batch writes and purges go to storage behind the interface's cache (recorded findings), attribute inserts
     work on whatever object the cache or the storage hands out: the refinement covers them for interfaces
